@@ -128,9 +128,19 @@ func writeEvidence(o CheckOptions, seed int64, reports []*HarnessReport, samples
 		ev["assumptions"] = []string{}
 	}
 	b, _ := json.MarshalIndent(ev, "", " ")
-	dir := filepath.Join(o.VerifDir, "evidence")
+	dir := evidenceDir(o.VerifDir)
 	os.MkdirAll(dir, 0o755)
 	if err := os.WriteFile(filepath.Join(dir, o.Prop+".json"), b, 0o644); err != nil {
 		fmt.Fprintln(os.Stderr, "evidence:", err)
 	}
+}
+
+// evidenceDir is /verif/evidence, or the directory named by HCSYM_EVIDENCE_DIR: the tools that
+// run the checks against deliberately changed trees (seeds, benign variants) point it at a
+// scratch directory so that the evidence of the unchanged tree is not overwritten.
+func evidenceDir(verifDir string) string {
+	if d := os.Getenv("HCSYM_EVIDENCE_DIR"); d != "" {
+		return d
+	}
+	return filepath.Join(verifDir, "evidence")
 }
